@@ -410,6 +410,17 @@ func (C19) Generate(c *Ctx, r *Rand, index int) *Scenario {
 			"G | .[] | with(.n; . |= C)", "G | .[] | (F) as $v | $v", ".new = (G | map(F))", ". as $d | G | map(F)", "G | map(F) | length", "{\"k\": (G | map(F))}", "(G | map(F)), 1", "1, (G | map(F))",
 		})
 		expr := strings.NewReplacer("G", g, "F", f, "C", conv).Replace(ctx)
+		if rs.Chance(1, 4) {
+			// no document at all in any input: the expression is then evaluated once against null
+			sc.Files = nil
+			for i, n := 0, rs.Range(1, 2); i < n; i++ {
+				sc.Files = append(sc.Files, File{Name: "f" + strconv.Itoa(i+1) + ".yaml", Data: Bytes(Pick(rs, []string{"", "\n", "\n\n"})), Mode: 0644})
+			}
+			if !strings.HasPrefix(ctx, "G") && !strings.HasPrefix(ctx, "[G") {
+				expr = Pick(rs, []string{"error(\"boom\")", "load(\"missing.yaml\")", g + " | map(" + f + ")", "\"x\" | to_number", ".a = (\"{bad\" | from_json)"})
+			}
+			sc.Meta["zero_documents"] = true
+		}
 		addOut()
 		finish(expr)
 		sc.Meta["freeze_data"] = true
@@ -417,9 +428,15 @@ func (C19) Generate(c *Ctx, r *Rand, index int) *Scenario {
 		// flags only, input on stdin: the root command itself evaluates `.`
 		g := &DocGen{R: r.Fork("doc"), Plain: true}
 		doc := g.Doc(DocID(r, 0, 0)).YAML()
-		kind := Pick(rs, []string{"ok", "ok", "encoder-domain", "bad-input", "e-false"})
+		kind := Pick(rs, []string{"ok", "ok", "encoder-domain", "bad-input", "e-false", "expr-only", "expr-only"})
 		argv = nil
 		switch kind {
+		case "expr-only":
+			// an expression and nothing else: the input is whatever arrives on stdin, however late
+			argv = Pick(rs, [][]string{{".a"}, {"-o=json", "-I0", "."}, {".id"}, {"-o=json", "-I0", "[.id, .a]"}, {"-P", ".c"}})
+			if rs.Chance(1, 2) {
+				sc.StdinDelayMs = Pick(rs, []int{300, 450, 700})
+			}
 		case "ok":
 			argv = Pick(rs, [][]string{{"-o=json", "-I0"}, {"-P"}, {"-o=props"}, {"-o=json"}, {"-N"}})
 		case "encoder-domain":
@@ -485,8 +502,17 @@ func (C19) Generate(c *Ctx, r *Rand, index int) *Scenario {
 			{"-o=csv", "[{\"k\": 1}, {\"k\": {\"n\": 2}}]"}, {"-o=csv", "[{\"k\": 1}, {\"k\": [1]}]"}, {"-o=tsv", "[{\"k\": 1}, {\"k\": {\"n\": 2}}]"}, {"-o=csv", "[[1], [{\"a\": 1}]]"}, {"-o=csv", ".e + [{\"k\": .c}]"},
 			{"-o=csv", "[[1, 2], [3, [4]]]"}, {"-o=xml", "[1, 2]"}, {"-o=base64", ".c"}, {"-o=uri", ".c"},
 			{"-o=toml", "."}, {"-o=toml", ".d"}, {"-o=toml", ".c"}, {"-o=base64", "."}, {"-o=base64", ".d"}, {"-o=base64", ".a"}, {"-o=uri", "."}, {"-o=uri", ".d"},
+			{"-o=xml", "{\"r\": {\"+@a\": [1, 2], \"b\": 1}}"}, {"-o=xml", "{\"r\": {\"+@a\": {\"n\": 1}}}"}, {"-o=xml", "{\"r\": {\"+@a\": .d}}"}, {"-o=xml", "{\"r\": {\"+@a\": .c, \"+content\": \"t\"}}"},
 		})
-		if rs.Chance(1, 3) {
+		if rs.Chance(1, 5) {
+			// no document in the input: the result comes from the expression alone and must be refused all the same
+			sc.Files[0].Docs = nil
+			sc.Files[0].Data = Bytes(Pick(rs, []string{"", "\n"}))
+			combo = Pick(rs, [][2]string{{"-o=xml", "[1, 2]"}, {"-o=csv", "{\"a\": {\"b\": 1}}"}, {"-o=csv", "[{\"k\": 1}, {\"k\": {\"n\": 2}}]"}, {"-o=base64", "1"}, {"-o=base64", "{\"a\": 1}"}, {"-o=toml", "[1]"}, {"-o=uri", "[1]"}, {"-o=tsv", "[[1], [{\"a\": 1}]]"}})
+			sc.Meta["zero_documents"] = true
+			sc.Meta["freeze_data"] = true
+		}
+		if !sc.MetaBool("zero_documents") && rs.Chance(1, 3) {
 			// scalars that an encoder cannot represent
 			sc.Files[0].Docs[0] += "bad: !!int 12abc\ninf: .inf\nfl: !!float xyz\ncx:\n  - ? [p, q]\n    : 1\n"
 			sc.Meta["freeze_data"] = true
@@ -646,7 +672,11 @@ func (C19) Judge(c *Ctx, sc *Scenario) []Violation {
 			return vs
 		}
 		// the same evaluation through the eval sub-command is the reference for the status
-		ref := c.Ref(append(append([]string{}, sc.Argv...), ".", "-"), sc.Files, sc.Stdin)
+		refArgv := append(append([]string{}, sc.Argv...), ".", "-")
+		if kind == "expr-only" {
+			refArgv = append(append([]string{}, sc.Argv...), "-")
+		}
+		ref := c.Ref(refArgv, sc.Files, sc.Stdin)
 		if (ref.Exit == 0) != (out.Exit == 0) {
 			add("O19.11", fmt.Sprintf("root exit=%d eval exit=%d kind=%s", out.Exit, ref.Exit, kind), fmt.Sprintf("the root command (flags only, input on stdin) exits %d, `yq <flags> . -` exits %d", out.Exit, ref.Exit))
 		}
